@@ -208,6 +208,7 @@ fn algo_config(t: &[&str]) -> (AlgorithmConfig, SourceConfig) {
 // events whose index is a multiple of stride, and of the last event.
 fn run_history<D: Debug + Copy + Clone + Send + 'static, N: MeasurementNoiseEstimator<MeasurementDelay = D> + Clone + Send + NoiseEnc + 'static>(
     t: &[&str],
+    full: bool,
     noise: N,
     mk_delay: &dyn Fn(i64) -> D,
     delay_raw: &dyn Fn(D) -> i64,
@@ -279,7 +280,36 @@ fn run_history<D: Debug + Copy + Clone + Send + 'static, N: MeasurementNoiseEsti
                 }
             }
             if n % stride == 0 || i >= t.len() {
-                dump(&mut dumps, &c, flag, delay_raw);
+                let mut d = String::new();
+                dump(&mut d, &c, flag, delay_raw);
+                if full {
+                    dumps.push_str(&d);
+                } else {
+                    // hash unc kind nan  (hash as in Model/KalmanRun.v hashl; nan is for the monitor only)
+                    let mut h: u128 = 0;
+                    let mut unc = 0i128;
+                    for (j, w) in d.split_whitespace().enumerate() {
+                        let x: i128 = w.parse().unwrap();
+                        if j == 2 {
+                            unc = x;
+                        }
+                        h = (h * 1000003 + (x as u64 as u128)) % ((1u128 << 61) - 1);
+                    }
+                    let (kind, nan) = match &c.state.0 {
+                        SourceStateInner::Initial(_) => (0, 0),
+                        SourceStateInner::Stable(f) => {
+                            let k = &f.state;
+                            let fin = k.state.ventry(0).is_finite()
+                                && k.state.ventry(1).is_finite()
+                                && k.uncertainty.entry(0, 0).is_finite()
+                                && k.uncertainty.entry(0, 1).is_finite()
+                                && k.uncertainty.entry(1, 0).is_finite()
+                                && k.uncertainty.entry(1, 1).is_finite();
+                            (1, !fin as i32)
+                        }
+                    };
+                    write!(dumps, "{} {} {} {} ", h, unc, kind, nan).unwrap();
+                }
             }
             n += 1;
         }
@@ -335,16 +365,17 @@ fn case(t: &[&str]) -> String {
             write!(o, "{} {}", bits(b.mean()), bits(b.variance())).unwrap();
         }
         "13" => write!(o, "{}", bits(fl(a[0]) % fl(a[1]))).unwrap(),
-        "20" => {
+        "20" | "21" => {
+            let full = t[0] == "21";
             if a[15] == "0" {
                 let mut v: Vec<&str> = a[..15].to_vec();
                 v.extend_from_slice(&a[16..]);
-                o = run_history(&v, AveragingBuffer::default(), &|d| dur(d), &|d| dur_raw(d));
+                o = run_history(&v, full, AveragingBuffer::default(), &|d| dur(d), &|d| dur_raw(d));
             } else {
                 let mut v: Vec<&str> = a[..15].to_vec();
                 v.extend_from_slice(&a[18..]);
                 let nz = FixedMeasurementNoise { precision: fl(a[16]), accuracy: fl(a[17]) };
-                o = run_history(&v, nz, &|_| (), &|_| 0);
+                o = run_history(&v, full, nz, &|_| (), &|_| 0);
             }
         }
         "30" => o = c06_system::run_system(a),
